@@ -100,7 +100,8 @@ impl Prop for C05 {
     fn cases(&self, tier: Tier, build: &str) -> u32 {
         match (tier, build) {
             (Tier::Quick, "fast") => 40_000,
-            (Tier::Quick, "noprefetch") => 6_000,
+            (Tier::Quick, "noprefetch") | (Tier::Quick, "native") => 6_000,
+            (Tier::Thorough, "native") => 25_000,
             (Tier::Quick, "asan") => 3_000,
             (Tier::Quick, _) => 15_000,
             (Tier::Thorough, "fast") => 200_000,
@@ -111,8 +112,9 @@ impl Prop for C05 {
     }
     fn builds(&self, _tier: Tier) -> Vec<&'static str> {
         // the crate feature `prefetch` must not matter for any answer: a smaller run without it
-        // `asan`: generated cases under AddressSanitizer
-        vec!["fast", "checked", "noprefetch", "asan"]
+        // `asan`: generated cases under AddressSanitizer; `native`: compiled with
+        // `-C target-cpu=native` (code selected by `cfg(target_feature = ...)`)
+        vec!["fast", "checked", "noprefetch", "asan", "native"]
     }
     fn rule(&self) -> &'static str {
         "cases = (RSQVector256|RSQVector512, construction path with carrier integer type, quaternary content from explicit/weighted/run/periodic/rare-symbol/late-symbol generators, query plan seed); non-trivial = n > 256 and >= 2 symbols present; distinct = hash of the whole case"
